@@ -206,7 +206,7 @@ def gen_case(rng, cfg):
     if rng.random() < 0.1 and not p.isotope:
         kw['isotope_mods'] = [rng.choice(C03_LABELS)]
     if (p.isotope or 'isotope_mods' in kw) and rng.random() < 0.4:
-        kw['use_isotope_on_mods'] = True
+        kw['use_isotope_on_mods'] = True if rng.random() < 0.8 else 1    # a flag is a flag
     if rng.random() < 0.25:
         kw['precision'] = rng.choice([2, 3, 4, 5, 6])
     return p, kw
@@ -281,6 +281,17 @@ def run(ctx):
     for _ in range(ctx.n(80000, 2000000)):
         p, kw = gen_case(ctx.rng, cfg)
         run_case(ctx, st, pt, p, kw)
+    # protein-sized chains (201..320 residues), bare or sparsely modified, all argument combinations (intact-mass work:
+    # mass(protein, charge=z, isotope=i))
+    import dataclasses as _dc
+    longc = _dc.replace(cfg, min_len=201, max_len=320, p_res=0.01, p_interval=0.0, p_unknown=0.05, p_labile=0.05,
+                        p_static=0.1, p_isotope=0.1, p_charge=0.2, p_nterm=0.1, p_cterm=0.1)
+    for j in range(ctx.n(300, 6000)):
+        p, kw = gen_case(ctx.rng, longc)
+        if j % 2 == 0:
+            p = Pep(p.seq)       # no annotation at all
+        kw.setdefault('isotope', ctx.rng.randint(1, 3))
+        run_case(ctx, st, pt, p, kw, tag=('long',))
     # vocabulary sweep
     k = 0
     quick = ctx.quick()
